@@ -547,14 +547,43 @@ func unfinishedIndexGuard(p *Prog, f *Fn, info *types.Info, c *ast.CallExpr) boo
 		})
 		return hit
 	}
+	asksMagic := func(cond ast.Expr) (asked, negated bool) {
+		neg := false
+		e := ast.Unparen(cond)
+		for {
+			u, ok := e.(*ast.UnaryExpr)
+			if !ok || u.Op != token.NOT {
+				break
+			}
+			neg = !neg
+			e = ast.Unparen(u.X)
+		}
+		cc, ok := e.(*ast.CallExpr)
+		if !ok || len(cc.Args) != 1 || identObj(info, cc.Args[0]) != x {
+			return false, false
+		}
+		if fn := p.Callee(f.Pkg, cc); fn != nil && looksAtMagic(p.FnOfObj(fn)) {
+			return true, neg
+		}
+		return false, false
+	}
 	guarded := false
 	ast.Inspect(f.Body(), func(y ast.Node) bool {
 		ifs, ok := y.(*ast.IfStmt)
-		if !ok || !within(c, ifs.Body) {
+		if !ok {
 			return true
 		}
-		for _, cc := range callsIn(ifs.Cond) {
-			if fn := p.Callee(f.Pkg, cc); fn != nil && looksAtMagic(p.FnOfObj(fn)) && len(cc.Args) == 1 && identObj(info, cc.Args[0]) == x {
+		asked, neg := asksMagic(ifs.Cond)
+		if !asked {
+			return true
+		}
+		// the removal in the branch taken for an unfinished file …
+		if !neg && within(c, ifs.Body) {
+			guarded = true
+		}
+		// … or behind `if !unfinished(x) { return }`
+		if neg && ifs.Else == nil && len(ifs.Body.List) > 0 && ifs.End() <= c.Pos() {
+			if _, ok := ifs.Body.List[len(ifs.Body.List)-1].(*ast.ReturnStmt); ok {
 				guarded = true
 			}
 		}
@@ -563,13 +592,50 @@ func unfinishedIndexGuard(p *Prog, f *Fn, info *types.Info, c *ast.CallExpr) boo
 	if !guarded {
 		return false
 	}
-	failedLoad := false
-	for _, cc := range callsInDeep(f.Body()) {
-		if fn := p.Callee(f.Pkg, cc); fn != nil && fn.FullName() == "github.com/spq/pkappa2/internal/index.NewReader" && len(cc.Args) == 1 && identObj(info, cc.Args[0]) == x {
-			failedLoad = true
+	loadsFail := func(g *Fn, name types.Object) bool {
+		for _, cc := range callsInDeep(g.Body()) {
+			if fn := p.Callee(g.Pkg, cc); fn != nil && fn.FullName() == "github.com/spq/pkappa2/internal/index.NewReader" && len(cc.Args) == 1 && identObj(g.Pkg.TypesInfo, cc.Args[0]) == name {
+				return true
+			}
+		}
+		return false
+	}
+	if loadsFail(f, x) {
+		return true
+	}
+	// x is a parameter of a helper: every call of the helper passes a name index.NewReader was called with there
+	if f.Decl == nil || f.Lit != nil || f.Decl.Type.Params == nil {
+		return false
+	}
+	pos := -1
+	k := 0
+	for _, fld := range f.Decl.Type.Params.List {
+		for _, nm := range fld.Names {
+			if info.Defs[nm] == x {
+				pos = k
+			}
+			k++
 		}
 	}
-	return failedLoad
+	fobj, _ := info.Defs[f.Decl.Name].(*types.Func)
+	if pos < 0 || fobj == nil {
+		return false
+	}
+	sites, okSites := 0, 0
+	for _, g := range p.FnList {
+		if g.Body() == nil || g.Short != f.Short {
+			continue
+		}
+		for _, cc := range callsIn(g.Body()) {
+			if fn := p.Callee(g.Pkg, cc); fn != nil && fn.Origin() == fobj.Origin() && pos < len(cc.Args) {
+				sites++
+				if o := identObj(g.Pkg.TypesInfo, cc.Args[pos]); o != nil && loadsFail(g.Root(), o) {
+					okSites++
+				}
+			}
+		}
+	}
+	return sites > 0 && sites == okSites
 }
 
 // removedNameIsLocal: the argument of os.Remove derives from an object created in this function.
